@@ -38,7 +38,7 @@ C_LATER = "and does not impair the storing of later blocks"
 
 KINDS = ["valid-on-head", "valid-on-older-block", "duplicate", "orphan", "bad-merkle", "future-timestamp", "reward-height-mismatch",
          "wrong-signature", "reward-too-high", "timestamp-not-after-parent", "apply-error-missing-output", "wrong-evidence",
-         "stated-height-without-ancestors"]
+         "stated-height-without-ancestors", "wrong-signature-on-side-branch"]
 
 
 def _rows(store) -> List[bytes]:
@@ -165,6 +165,25 @@ def delivery(kind: int, conflict: bool = False, served_head: str = "P", twin: bo
             if not real and blk is not W.P:
                 for t in blk.transactions:
                     W.sha256d.preset((t.serialize(),), t.hash())
+            if name == "wrong-signature-on-side-branch":
+                # the node's head is already one block further (a sibling of the delivered block): the delivered block is above
+                # the checkpoint horizon but would not become the head
+                cbh = W.env.coinbase(W.h, [dt.Output(1, W.keys[3])], None, data=b"h")
+                head1 = W.candidate(state, [cbh], pts + 1 if pts + 1 <= now + MAX_FUTURE else pts, bid=tok(BLK, 10), nonce=9)
+                if not real:
+                    W.sha256d.preset((cbh.serialize(),), cbh.hash())
+                try:
+                    state = state.add_block(head1, now)
+                except Exception:
+                    return True
+                cm.coinstate = state
+                cm.last_known_valid_coinstate = state
+                store.write_blocks_to_disk([head1])
+                spend_bad = W.make_tx(None, [(src, 0, 1)], [(ov, 1)], pv, tok(TX, 99), None)
+                blk = W.candidate(state, [cb, spend_bad], ts, bid=tok(BLK, 6))
+                if not real:
+                    for t in blk.transactions:
+                        W.sha256d.preset((t.serialize(),), t.hash())
             should_accept = name in ("valid-on-head", "valid-on-older-block")
             rows0 = _rows(store)
             pool0 = list(cm.transaction_pool)
